@@ -120,6 +120,12 @@ fn scenario_drop_orders(tape: &Tape, out: &mut Out, trace: bool) -> R {
         evs.swap(i, j);
     }
     let end_kind = c[5] % 3; // commit / abort / drop
+    // "every injected backend failure": in a third of the cases close() itself returns an error
+    let close_fails = c[7] % 3 == 0;
+    if close_fails {
+        backend.lock().fail_close = true;
+        out.classes.push("close() returns an error");
+    }
     let mut db = Some(db);
     let mut wtxn = Some(wtxn);
     let mut reader = reader;
